@@ -3,11 +3,11 @@ package props
 // C09 — the pool talks to a host exactly while that host has a live connection.
 
 import (
-	"sort"
 	"context"
 	"fmt"
 	"math/big"
 	"runtime"
+	"sort"
 	"strings"
 	"sync"
 	"sync/atomic"
